@@ -28,7 +28,6 @@ import (
 	"os/exec"
 	"path/filepath"
 	"regexp"
-	"runtime"
 	"strings"
 	"sync"
 	"testing"
@@ -39,6 +38,7 @@ import (
 	"github.com/aperturerobotics/bifrost/envelope"
 	"github.com/aperturerobotics/bifrost/peer"
 	acli "github.com/aperturerobotics/cli"
+	"verifharness/g12util"
 	"verifharness/keys"
 	"verifharness/vf"
 )
@@ -112,7 +112,7 @@ type cliEnv struct {
 	payload  []byte
 	good     *keys.Identity
 	goodPem  []byte
-	envGood  string            // envelope file sealed to good only
+	envGood  string             // envelope file sealed to good only
 	envByID  map[peer.ID]string // envelope file sealed to the file key's identity only
 	payloadF string
 	n        int
@@ -470,40 +470,9 @@ func buildDaemon(t testing.TB) (string, error) {
 	if repo == "" {
 		repo = "/repo"
 	}
-	var gobin string
-	for _, c := range []string{os.Getenv("VERIF_GO"), filepath.Join(runtime.GOROOT(), "bin", "go"),
-		"/root/go/pkg/mod/golang.org/toolchain@v0.0.1-go1.25.0.linux-amd64/bin/go"} {
-		if c == "" {
-			continue
-		}
-		if fi, err := os.Stat(c); err == nil && !fi.IsDir() {
-			gobin = c
-			break
-		}
-	}
-	if gobin == "" {
-		p, err := exec.LookPath("go")
-		if err != nil {
-			return "", errors.New("no go toolchain found")
-		}
-		gobin = p
-	}
 	bin := filepath.Join(t.TempDir(), "bifrost")
-	cmd := exec.Command(gobin, "build", "-o", bin, "./cmd/bifrost")
-	cmd.Dir = repo
-	env := os.Environ()
-	// the race runtime settings of the test binary must not leak into the tool
-	clean := env[:0:0]
-	for _, kv := range env {
-		if strings.HasPrefix(kv, "GORACE=") || strings.HasPrefix(kv, "GOMAXPROCS=") || strings.HasPrefix(kv, "GOFLAGS=") {
-			continue
-		}
-		clean = append(clean, kv)
-	}
-	cmd.Env = append(clean, "GOFLAGS=-mod=mod", "GOPROXY=off", "GOTOOLCHAIN=local")
-	out, err := cmd.CombinedOutput()
-	if err != nil {
-		return "", fmt.Errorf("%s build ./cmd/bifrost in %s: %v: %s", gobin, repo, err, out)
+	if err := g12util.GoBuild(repo, bin, "./cmd/bifrost"); err != nil {
+		return "", err
 	}
 	return bin, nil
 }
@@ -527,7 +496,7 @@ func runDaemonBin(bin, dir, path string) daemonOut {
 		return daemonOut{watchdog: true, log: err.Error()}
 	}
 	cmd.Stdout, cmd.Stderr = pw, pw
-	cmd.Env = append(os.Environ(), "GORACE=", "GOMAXPROCS=2")
+	cmd.Env = g12util.ToolEnv("GOMAXPROCS=2")
 	if err := cmd.Start(); err != nil {
 		pw.Close()
 		pr.Close()
